@@ -57,6 +57,17 @@ def add_params(p, ro):
 def rest_expr_is(e, pos):
     """e is (a phi of) '' and a slice of the path parameter starting after the separator"""
     e = deep_strip(e)
+    # `let (head, rest) = path.split_once(SEP).unwrap_or((path, ""))`: second component of that pair
+    if e[0] == "field" and e[2] == "1":
+        t = deep_strip(e[1])
+        if t[0] == "call" and t[1].endswith("Option::<T>::unwrap_or") and len(t[2]) == 2:
+            so, dflt = deep_strip(t[2][0]), deep_strip(t[2][1])
+            if so[0] == "call" and so[1] == "core::str::<impl str>::split_once" and deep_strip(so[2][0]) == ("param", pos["path"]) \
+                    and dflt[0] == "tuple" and len(dflt[1]) == 2 and deep_strip(dflt[1][0]) == ("param", pos["path"]) and deep_strip(dflt[1][1]) == ("const", "str", ""):
+                return True
+        # a (head, rest) pair built on two edges and projected afterwards
+        if t[0] == "phi" and all(deep_strip(x)[0] == "tuple" and len(deep_strip(x)[1]) == 2 for x in t[1]):
+            return rest_expr_is(("phi", tuple(deep_strip(x)[1][1] for x in t[1])), pos)
     alts = e[1] if e[0] == "phi" else (e,)
     okc, oks = False, False
     for a in alts:
